@@ -80,6 +80,8 @@ func (m *Machine) Step(t *rapid.T, failPct int) {
 		m.ActReload(t)
 	case "save":
 		m.ActSave(t)
+	case "failedSave":
+		m.ActFailedSave(t)
 	case "restart":
 		m.ActRestartProbe(t)
 	case "saveRetention":
@@ -241,8 +243,8 @@ func TestC16(t *testing.T) {
 	cfg := &Cfg{Prop: "C16", MaxPipelines: 2, MaxTasks: 4, DelayPct: 35, ReplacePct: 15, AllowFailPct: 10, ContinuePct: 0,
 		LimitChoices: []int{-1, -1, 2, 3}, Weights: map[string]int{"schedule": 30, "cancel": 9, "finish": 26, "timer": 10, "hold": 6, "release": 6, "reload": 16, "save": 3},
 		Armed: map[string]bool{"C16": true}}
-	runHistories(t, histOpts{cfg: cfg, failPct: 0,
-		rule:       "histories with reloads (1-3 edits: task added/removed/rewired, script/env changed, delay added/removed/changed, limits/strategy changed, pipeline added/removed) landing while jobs wait, wait with pending delay, or run between tasks (hold); oracle: per job a deep copy of its pipeline at accept time - the runner log must show exactly those tasks/commands/env/dependencies, the job carries that delay and does not start before its own timer; requests after a reload are admitted, queued, replaced or rejected as the definition in force says (also when a lowered concurrency is below the number of running jobs); the reload call itself changes no job and causes no runner activity; after the drain no job of a still-defined pipeline is stranded; nobody canceled => plain success; non-trivial = a reload while the edited pipeline had a waiting and a running job; distinct by action trace",
+	runHistories(t, histOpts{cfg: cfg, failPct: 10,
+		rule:       "histories with reloads (1-3 edits: task added/removed/rewired, script/env changed, delay added/removed/changed, limits/strategy changed, pipeline added/removed) landing while jobs wait, wait with pending delay, or run between tasks (hold), a tenth of the task results being failures (so that allow_failure and fail-fast of the definition at accept time matter); oracle: per job a deep copy of its pipeline at accept time - the runner log must show exactly those tasks/commands/env/dependencies, the job carries that delay and does not start before its own timer; requests after a reload are admitted, queued, replaced or rejected as the definition in force says (also when a lowered concurrency is below the number of running jobs); the reload call itself changes no job and causes no runner activity; after the drain no job of a still-defined pipeline is stranded; nobody canceled => plain success; non-trivial = a reload while the edited pipeline had a waiting and a running job; distinct by action trace",
 		nontrivial: func(c map[string]int) bool { return c["reload:with-waiting"] > 0 && c["reload:with-running"] > 0 }})
 }
 
@@ -273,7 +275,7 @@ func TestC12(t *testing.T) {
 // C11 (simulated part): shutdown leaves only terminal jobs and a store that matches them.
 func TestC11Sim(t *testing.T) {
 	cfg := &Cfg{Prop: "C11", MaxPipelines: 2, MaxTasks: 4, DelayPct: 30, ReplacePct: 15, AllowFailPct: 15, ContinuePct: 30,
-		LimitChoices: []int{-1, -1, 2, 3}, Weights: map[string]int{"schedule": 34, "cancel": 6, "finish": 22, "timer": 8, "hold": 8, "release": 4, "shutdown": 9, "reload": 3, "save": 2},
+		LimitChoices: []int{-1, -1, 2, 3}, Weights: map[string]int{"schedule": 34, "cancel": 6, "finish": 22, "timer": 8, "hold": 8, "release": 4, "shutdown": 9, "reload": 3, "save": 2, "failedSave": 2},
 		Armed: map[string]bool{"C11": true}, ShutdownAtEnd: true}
 	runHistories(t, histOpts{cfg: cfg, failPct: 15,
 		rule:       "a generated history builds the pre-state (running multi-task jobs with tasks still to be launched, held scheduler loops, waiting and delayed jobs, finished ones); then Shutdown runs in a goroutine, graceful or forced (context canceled before the call or after k further task completions), with a schedule request racing its start; while it is in progress the harness keeps finishing tasks in generated order/outcomes, releases loops, and issues schedule and save requests; oracle at return: no job running or waiting, no task executing, the last snapshot the store received equals the reported state of every job, requests during/after are refused (ErrShuttingDown, HTTP 503) without effect, a raced accepted request is terminal; graceful => no stop request reaches a runner because of the shutdown and every running job ends as its outcomes imply, waiting jobs canceled and never run; forced => running jobs are told to stop, context error returned, never a plain success with unrun tasks; non-trivial = at the start of the shutdown a job was running with an unlaunched task and a job was waiting; distinct by action trace",
